@@ -3,6 +3,11 @@
 import json, subprocess
 
 BUILT = {
+ "C06": dict(level="exploration",
+   technique="stateful model-based testing (rapid): operation histories over 6 variables against a value-semantics model with a check of every live binding after every statement",
+   text="Histories of 10-40 statements (bind literals of 0..20 elements, copy, store inside a container and read back, index / key / field assignment incl. negative index, append, concat, merge, two appends from one base, del, slice, rest, pass to a mutating function, mutate while iterating, ++ on an element copy) run on one session; the model deep-copies on every bind and after EVERY statement every live variable must evaluate to the model's value, so any operation that changes a binding it was not applied to is caught at the step where it happens. Sizes are drawn on both sides of the 8-element / 4-pair thresholds. In-place mutation of shared large containers and appends into shared spare capacity are genuine defects recorded as known findings; the machine tracks storage provenance only to exclude exactly those steps.",
+   note="Trusted: the value model (harness/val) and the provenance tracking that decides which steps belong to the two known-finding classes (conservative: it may exclude a harmless step, never include a harmful one on the unchanged tree).",
+   ref="DESIGN.md section 3, C06"),
  "C05": dict(level="exploration",
    technique="differential testing (registers on vs State.NoReg) of typed-grammar programs and multi-input sessions; oracle = identical per-input output, echo, error/no-error, panicked flag and final globals",
    text="Typed-grammar programs (functions of up to 12 parameters of mixed types, recursion, closures, variadics, parameter mutation with = ++ --, counted loops nested up to 10 deep, all loop forms and exits, error/catch, containers) are evaluated whole or statement by statement on two fresh states, with and without registers, and every input's output, echo, error presence and the final globals are compared; two focused generators add sessions of up to 40 top-level loops each left in a drawn way, and functions of 0..12 parameters called with every mix of integer / non-integer arguments whose bodies mutate, print, loop over and capture the parameters. Four classes where the optimisation is observable by design are excluded by construction and reported as known findings.",
